@@ -192,6 +192,17 @@ PROPS["C20"] = {
                     "text against the same f64 expressions evaluated by the harness; the Lean model covers the integer counts"],
 }
 
+PROPS["C17"] = {
+    "families": ["C17"],
+    "nontrivial": lambda line, out: out.startswith("ok:") or (line.startswith("KYE") and len(out) > 10),
+    "rule": "resources/kytea-model.bin (whole and every 5th / every truncation point) and 40 (quick) / 1500 (thorough) abstract KyTea "
+            "descriptions (windows 1..3, up to 30 character n-grams and 12 type n-grams incl. the 0x04 letter, stored vectors sometimes "
+            "longer than the window needs, 0..8 dictionaries with membership masks, 0..3 tag slots) encoded to files by the harness's "
+            "Rust encoder AND by the Lean encoder (bytes compared), converted by the REAL reader + TryFrom; every ~60th (quick) / every "
+            "(thorough) truncation point; non-trivial = distinct case that produced a file or a converted model",
+    "scopes": {"quick": "every 5th prefix of resources/kytea-model.bin; ~60 prefixes of each generated file", "thorough": "every truncation point"},
+    "assumptions": ["f64 fields of the KyTea file are opaque 8-byte fields"],
+}
 PROPS["C18"] = {
     "families": ["C18"],
     "nontrivial": _pred_ok,
